@@ -66,4 +66,16 @@ def compare (u v : U128) : Int :=
   else if u.lower < v.lower then -1
   else 0
 
+/-- `encodeState.encodeUint128`: 16 little-endian bytes (`padBytes(i.Bytes(), LittleEndian)`) -/
+def scaleEnc (u : U128) : Bytes := padLE (bytesLE u)
+
+/-- `decodeState.decodeUint128` on exactly 16 bytes: `NewUint128(buf)` -/
+def scaleDec (b : Bytes) : U128 := ofBytesLE b
+
+/-- SCALE encoding of `types.AccountInfo` (dot/types/account.go): four `uint32` counters followed by
+    the four 128-bit balances of `AccountData` -/
+def accountInfoEnc (nonce consumers producers sufficients : Nat) (free reserved misc frozen : U128) : Bytes :=
+  leBytes 4 nonce ++ leBytes 4 consumers ++ leBytes 4 producers ++ leBytes 4 sufficients ++
+    scaleEnc free ++ scaleEnc reserved ++ scaleEnc misc ++ scaleEnc frozen
+
 end Gossamer.C13
